@@ -67,14 +67,14 @@ def run(F, R, tier):
     rets = [n for n in sg["_nodes"] if n["k"] == "Ret" and any(callee_matches(x, ["std::clone::Clone::clone"]) or x.get("name") == "clone" for x in walk(n))]
     if R.ob("C18-c", "clone shortcut found", len(rets) == 1, "shape changed", sg["file"]):
         g = guards_at(F, rets[0])
-        ok = any(x.kind == "cond" and x.pol and x.node.get("k") == "MethodCall" and x.node["name"] == "all" and any(y.get("name") == "contains" and peel(y["recv"]).get("field") == "roots" for y in walk(x.node) if y.get("k") == "MethodCall") for x in g)
+        ok = any(x.kind == "cond" and x.pol and x.node.get("k") == "MethodCall" and x.node["name"] == "all" and any(y.get("name") == "contains" and field_of(y["recv"]) == "roots" for y in walk(x.node) if y.get("k") == "MethodCall") for x in g)
         R.ob("C18-c", "whole-graph clone only when every requested root is an original root", ok, "shortcut guard changed: %s" % [x.text()[:60] for x in g], where(rets[0]))
     for fld in ("imports", "packages"):
-        c = [n for n in sg["_nodes"] if n.get("k") == "MethodCall" and n["name"] in ("clone_from",) and peel(n["recv"]).get("field") == fld]
+        c = [n for n in sg["_nodes"] if n.get("k") == "MethodCall" and n["name"] in ("clone_from",) and field_of(n["recv"]) == fld]
         R.ob("C18-c", "segment carries over %s" % fld, len(c) == 1 and peel_value(c[0]["args"][0]).get("field") == fld, "%s not copied from the original" % fld, sg["file"])
-    a = [n for n in sg["_nodes"] if n["k"] == "Assign" and peel(n["l"]).get("field") == "has_node_specifier"]
+    a = [n for n in sg["_nodes"] if n["k"] == "Assign" and field_of(n["l"]) == "has_node_specifier"]
     R.ob("C18-c", "segment carries over has_node_specifier", len(a) == 1, "flag not copied", sg["file"])
-    a = [n for n in sg["_nodes"] if n["k"] == "Assign" and peel(n["l"]).get("field") == "roots"]
+    a = [n for n in sg["_nodes"] if n["k"] == "Assign" and field_of(n["l"]) == "roots"]
     R.ob("C18-c", "segment's roots are the requested roots", len(a) == 1 and any(w.get("lid") == sg["body"]["params"][1].get("lid") for z in walk(a[0]["r"]) if z.get("res") == "local" for i_ in through_locals(z) for w in walk(i_)), "roots not assigned", sg["file"])
 
     # the segment copies only what the walk yields: every hop of a redirect chain must be yielded
